@@ -162,10 +162,9 @@ func (pe *pathEnum) stmt(s ast.Stmt, only int64) []stmtPath {
 	case *ast.IfStmt:
 		pre := pe.callsOf(n.Init, only)
 		pre = append(pre, pe.callsOf(n.Cond, only)...)
-		cs := types.ExprString(n.Cond)
 		var out []stmtPath
 		for _, p := range pe.paths(n.Body.List, pe.guardOf(n.Cond, only)) {
-			out = append(out, stmtPath{events: append(append([]callEvent(nil), pre...), p.events...), facts: append([]condFact{{cs, true}}, p.facts...), exit: p.exit})
+			out = append(out, stmtPath{events: append(append([]callEvent(nil), pre...), p.events...), facts: append(factsOf(n.Cond, true), p.facts...), exit: p.exit})
 		}
 		var els []stmtPath
 		if n.Else != nil {
@@ -174,7 +173,7 @@ func (pe *pathEnum) stmt(s ast.Stmt, only int64) []stmtPath {
 			els = []stmtPath{{}}
 		}
 		for _, p := range els {
-			out = append(out, stmtPath{events: append(append([]callEvent(nil), pre...), p.events...), facts: append([]condFact{{cs, false}}, p.facts...), exit: p.exit})
+			out = append(out, stmtPath{events: append(append([]callEvent(nil), pre...), p.events...), facts: append(factsOf(n.Cond, false), p.facts...), exit: p.exit})
 		}
 		return out
 	case *ast.ForStmt:
@@ -214,6 +213,51 @@ func (pe *pathEnum) stmt(s ast.Stmt, only int64) []stmtPath {
 		}
 		var out []stmtPath
 		hasDefault := false
+		if n.Tag == nil {
+			// a tagless switch is an if / else-if chain: clause k is taken when its
+			// (single) condition holds and the conditions of the clauses before it do not
+			var before []condFact
+			var deflt *ast.CaseClause
+			emit := func(cc *ast.CaseClause, facts []condFact, evs []callEvent) {
+				for _, p := range pe.paths(cc.Body, only) {
+					if contradicts(facts, p.facts) {
+						continue
+					}
+					q := stmtPath{events: append(append([]callEvent(nil), evs...), p.events...), facts: append(append([]condFact(nil), facts...), p.facts...), exit: p.exit}
+					if p.exit == exitBreak {
+						q.exit = exitFall
+					}
+					out = append(out, q)
+				}
+			}
+			evs := append([]callEvent(nil), pre...)
+			for _, st := range n.Body.List {
+				cc := st.(*ast.CaseClause)
+				if cc.List == nil {
+					deflt = cc
+					continue
+				}
+				for _, e := range cc.List {
+					evs = append(evs, pe.callsOf(e, only)...)
+				}
+				facts := append([]condFact(nil), before...)
+				if len(cc.List) == 1 {
+					facts = append(facts, factsOf(cc.List[0], true)...)
+				}
+				if !contradicts(before, facts[len(before):]) {
+					emit(cc, facts, evs)
+				}
+				for _, e := range cc.List {
+					before = append(before, factsOf(e, false)...)
+				}
+			}
+			if deflt != nil {
+				emit(deflt, before, evs)
+			} else {
+				out = append(out, stmtPath{events: evs, facts: before})
+			}
+			return out
+		}
 		for _, st := range n.Body.List {
 			cc := st.(*ast.CaseClause)
 			lbl := "default"
@@ -243,6 +287,47 @@ func (pe *pathEnum) stmt(s ast.Stmt, only int64) []stmtPath {
 	}
 	pe.fail("unsupported statement kind", s)
 	return []stmtPath{{}}
+}
+
+// condKey renders a side-effect-free condition in a canonical spelling so that
+// `a > b` and `b < a`, `a == b` and `b == a` are the same fact.
+func condKey(e ast.Expr) string {
+	e = ast.Unparen(e)
+	if be, ok := e.(*ast.BinaryExpr); ok {
+		x, y := types.ExprString(ast.Unparen(be.X)), types.ExprString(ast.Unparen(be.Y))
+		switch be.Op {
+		case token.GTR:
+			return y + " < " + x
+		case token.GEQ:
+			return y + " <= " + x
+		case token.LSS:
+			return x + " < " + y
+		case token.LEQ:
+			return x + " <= " + y
+		case token.EQL, token.NEQ:
+			if y < x {
+				x, y = y, x
+			}
+			return x + " " + be.Op.String() + " " + y
+		}
+	}
+	return types.ExprString(e)
+}
+
+// factsOf splits "cond has value val" into facts about its parts: a true
+// conjunction makes every conjunct true, a false disjunction makes every
+// disjunct false, a negation flips.  What cannot be split stays whole.
+func factsOf(cond ast.Expr, val bool) []condFact {
+	e := ast.Unparen(cond)
+	if u, ok := e.(*ast.UnaryExpr); ok && u.Op == token.NOT {
+		return factsOf(u.X, !val)
+	}
+	if be, ok := e.(*ast.BinaryExpr); ok {
+		if (be.Op == token.LAND && val) || (be.Op == token.LOR && !val) {
+			return append(factsOf(be.X, val), factsOf(be.Y, val)...)
+		}
+	}
+	return []condFact{{condKey(e), val}}
 }
 
 // contradicts reports whether two fact lists assign different truth values to
